@@ -299,4 +299,9 @@ class load(DataStreamProcessor):
                     headers[prev_index] = ('%s' + deduplicate_format) % (headers[prev_index], 1)
                 header = ('%s' + deduplicate_format) % (header, counter[header_key])
             headers.append(header)
+        # a generated name can collide with a header that was already there ('a', 'a', 'a (2)')
+        keys = headers if case_sensitive else [header.lower() for header in headers]
+        if len(keys) != len(set(keys)):
+            return load.rename_duplicate_headers(headers, case_sensitive=case_sensitive,
+                                                 deduplicate_format=deduplicate_format)
         return headers
